@@ -41,6 +41,12 @@ def _verify_one(args):
         from pyvc.run import verify_contract
         k = W.contracts[path]
         rep = verify_contract(W, k)
+        if rep.error and rep.error.startswith('engine error'):
+            # an error of the machinery is never a verdict; one seen once under full load (a z3 sort mismatch that no
+            # later run reproduced) must not decide the exit code either: the function is regenerated and decided again
+            first_error = rep.error
+            rep = verify_contract(W, k)
+            out['engine_error_on_first_attempt'] = first_error[:300]
         if not rep.error and any(r.status == 'unknown' for r in rep.results):
             # a solver timeout is not a verdict: decide the function once more with four times the budget, one obligation
             # at a time (verdicts must not flip because all cores happened to be busy)
